@@ -19,7 +19,20 @@ func checkC06(c *Ctx) error {
 	c.ruleText = "expression trees built by hole expansion in GenExpr.tla (exhaustive up to MaxOps operators over the pool, then seeded random deeper trees), each evaluated by the reference semantics PlushSem.tla and rendered by real plush in three parenthesisations; a case is non-trivial when it has >= 1 operator and a specified outcome; distinct = distinct source texts."
 	c.Assume("floats are dyadic rationals printed in plain decimal; integer results stay far from overflow")
 	c.Assume("cross-kind ==, string-vs-non-string comparison, bool arithmetic, division by a non power of two float are unspecified and only checked for totality")
-	run := func(raw json.RawMessage) { c06Run(c, raw) }
+	run := func(raw json.RawMessage) {
+		var probe struct {
+			Gen string `json:"gen"`
+		}
+		json.Unmarshal(raw, &probe)
+		switch probe.Gen {
+		case "GenPratt":
+			prattRun(c, raw)
+		case "PrattWord":
+			prattWordRun(c, raw)
+		default:
+			c06Run(c, raw)
+		}
+	}
 	if c.ReplayPath != "" {
 		return replayFile(c, run)
 	}
@@ -41,8 +54,42 @@ func checkC06(c *Ctx) error {
 		}
 		_, err = c.mustTLC("GenExpr/sim", TLCOpts{Module: "GenExpr", Cfg: "GenExpr.sim.cfg", Simulate: n, Depth: 16, Seed: c.Seed, Timeout: 40 * time.Minute}, false, pool.feed)
 	}
+	// the parser machine (Pratt.tla): trees printed by the documented grammar, parsed by the machine (PrattAgree),
+	// evaluated under four valuations; token words accepted / rejected (Reprint)
+	if err == nil {
+		tcfg, wcfg := "GenPratt.quick.cfg", "GenPratt.words.cfg"
+		if c.Thorough() {
+			tcfg, wcfg = "GenPratt.thorough.cfg", "GenPratt.words4.cfg"
+		}
+		_, err = c.mustTLC("GenPratt/"+tcfg, TLCOpts{Module: "GenPratt", Cfg: tcfg, Workers: 12, Seed: c.Seed, Timeout: 40 * time.Minute}, true, pool.feed)
+		if err == nil {
+			_, err = c.mustTLC("GenPratt/"+wcfg, TLCOpts{Module: "GenPratt", Cfg: wcfg, Workers: 8, Seed: c.Seed, Timeout: 40 * time.Minute}, true, pool.feed)
+		}
+		if err == nil {
+			n := 400
+			if c.Thorough() {
+				n = 10000
+			}
+			_, err = c.mustTLC("GenPratt/sim", TLCOpts{Module: "GenPratt", Cfg: "GenPratt.sim.cfg", Simulate: n, Depth: 24, Seed: c.Seed, Timeout: 40 * time.Minute}, false, pool.feed)
+		}
+	}
 	pool.close()
-	return err
+	if err != nil {
+		return err
+	}
+	sens := map[string]string{}
+	for _, dev := range []string{"sumprod", "cmpeq", "matchlow", "rightassoc", "notlow"} {
+		r, derr := RunTLC(TLCOpts{Module: "GenPratt", Cfg: "GenPratt.dev_" + dev + ".cfg", Workers: 4, Seed: c.Seed, Timeout: 10 * time.Minute, NoCases: true}, nil)
+		if derr != nil {
+			return derr
+		}
+		sens[dev] = r.Violated
+		if r.Violated == "" {
+			return fmt.Errorf("Pratt.tla with Table=%s no longer violates PrattAgree", dev)
+		}
+	}
+	c.extra["model_sensitivity_pratt"] = sens
+	return nil
 }
 
 func c06Run(c *Ctx, raw json.RawMessage) {
